@@ -65,6 +65,18 @@ Definition run_fmt (pb P : N) (wbits : list Z) (has_norm normb flags : Z) (syms 
       | FqErr => [FQ_ERR; FQ_ERR] ++ (if N.leb pb 16 then [FQ_ERR; FQ_ERR] else [])
       | FqPanic => [FQ_PANICKED; FQ_PANICKED] ++ (if N.leb pb 16 then [FQ_PANICKED; FQ_PANICKED] else [])
       | FqOk _ =>
+          if N.testbit fl 4 || N.testbit fl 5 then
+            (* wrong number of symbols: every non-contiguous constructor must refuse; the
+               contiguous lookup model takes no symbols and is unaffected *)
+            match tb with
+            | None => [PANIC]
+            | Some t =>
+                [FQ_ERR; FQ_ERR]
+                ++ (if N.leb pb 16 then
+                      (0 :: out_table t ++ flat_map (fun q => out_dec (tbl_dec t (zN q))) quants) ++ [FQ_ERR]
+                    else [])
+            end
+          else
           match tb with
           | None =>
               [0; FQ_PANICKED; FQ_ERR] ++ (if N.leb pb 16 then [0; FQ_PANICKED; FQ_PANICKED] else [])
